@@ -227,11 +227,11 @@ func path(v ssa.Value, depth int) string {
 			if e == v {
 				continue
 			}
-			if depth > 4 {
+			if depth > 8 {
 				es = append(es, "…")
 				break
 			}
-			es = append(es, path(e, depth+3))
+			es = append(es, path(e, depth+2))
 		}
 		sort.Strings(es)
 		return "φ(" + strings.Join(dedup(es), "|") + ")"
